@@ -12,7 +12,8 @@ CONTROLS = [
     ("FanOutToAll", "MC_Inbound_quick", "Inv_C07"),
     ("NoFreeOnFailedPubrec", "MC_Ops_quick", "Inv_C10"),
     ("QuotaOffByOne", "MC_Ops_quick", "Inv_C10"),
-    ("QuotaResetOnResume", "MC_Resume", "Inv_C10"),
+    ("QuotaResetOnResume", "MC_Reconn_quick", "Inv_C10"),
+    ("StaleMsz", "MC_Reconn_quick", "Inv_C12"),
     ("CompleteByTypeOnly", "MC_Ops_quick", "Inv_C05"),
     ("DupOnFirst", "MC_Ops_quick", "Inv_C06"),
     ("ZeroIdOnWrap", "MC_Ids_quick", "Inv_C11"),
